@@ -8,6 +8,7 @@ import (
 
 	"github.com/osteele/liquid"
 	"github.com/osteele/liquid/expressions"
+	"github.com/osteele/liquid/render"
 	"github.com/osteele/liquid/values"
 	"pgregory.net/rapid"
 
@@ -35,6 +36,7 @@ type c07Kind struct {
 	cause     string // sentinel | typeerror | ""
 	needsLoop string // "none": must not be inside a loop wrapper
 	stray     string // for unbalanced kinds: name of the block the stray tag belongs to
+	altLine   string // text inside the construct whose line is an equally good answer
 }
 
 var c07Kinds = map[string]c07Kind{
@@ -66,6 +68,8 @@ var c07Kinds = map[string]c07Kind{
 	"type-error-when":    {src: "{% case 1 %}\n{% when 2 %}a%NL%\n%AT%{% when 3, (\"a\"..2) %}b{% endcase %}", cause: "typeerror"},
 	"syntax-elsif":       {src: "{% if false %}a\n%NL%%AT%{% elsif a b c %}c{% endif %}", parseTime: true},
 	"syntax-when":        {src: "{% case 1 %}\n%NL%%AT%{% when 1 2 %}c{% endcase %}", parseTime: true},
+	"expand-tag-arg":     {src: "{% echo a%NL% {{ 1 | fail }} b %}", names: "verif-sentinel", cause: "sentinel", altLine: "{{ 1 | fail"},
+	"located-filter-err": {src: "{% capture sn %}{% raw %}x {{ 1 | nosuchfilter }}{% endraw %}{% endcapture %}\n%AT%{{ sn |%NL% liquify }}", names: "nosuchfilter"},
 	"strict-undefined":   {src: "{{ undefined_name }}", strict: true},
 	"break-outside":      {src: "{% break %}", needsLoop: "none"},
 	"continue-outside":   {src: "{% continue %}", needsLoop: "none"},
@@ -189,6 +193,20 @@ var c07Locate = hx.Define("c07.locate", func(c *c07Case, s *hx.Sub) *hx.Violatio
 	}
 	k := c07Kinds[c.Kind]
 	eng := newEngine(nil)
+	// client code using the documented extension points: a tag that expands {{ }} in its argument, and a
+	// filter whose own error is a located error from another template
+	eng.RegisterTag("echo", func(ctx render.Context) (string, error) { return ctx.ExpandTagArg() })
+	eng.RegisterFilter("liquify", func(v string) (any, error) {
+		out, lerr := newEngine(nil).ParseTemplateLocation([]byte(v), "snippet.liquid", 40)
+		if lerr != nil {
+			return nil, lerr
+		}
+		res, rerr := out.RenderString(nil)
+		if rerr != nil {
+			return nil, rerr
+		}
+		return res, nil
+	})
 	if k.strict {
 		eng.StrictVariables()
 	}
@@ -222,6 +240,12 @@ var c07Locate = hx.Define("c07.locate", func(c *c07Case, s *hx.Sub) *hx.Violatio
 		return hx.V("c07:output-with-error", "%s returned output %q together with the error %v", desc, out, rerr)
 	}
 	wantLine := c.Start + strings.Count(src[:failAt], "\n")
+	if k.altLine != "" {
+		// the failing object sits inside a tag's argument: the tag's line and the object's own line are both "where it begins"
+		if at := strings.Index(src[failAt:], k.altLine); at >= 0 && err.LineNumber() == c.Start+strings.Count(src[:failAt+at], "\n") {
+			wantLine = err.LineNumber()
+		}
+	}
 	if err.LineNumber() != wantLine {
 		return hx.V("c07:line:"+map[bool]string{true: "parse", false: "render"}[perr != nil], "%s: the error %q reports line %d; the failing tag or object begins on line %d", desc, err.Error(), err.LineNumber(), wantLine)
 	}
